@@ -78,7 +78,7 @@ theorem mkBlocks_shift_norm (sr dl : Rat) (segs : List Seg) (ns : List Nat) :
         simp only [Blk.norm, hz, if_true]
       · rw [shiftWait_nonwait dl s hw]
 
-theorem segMarks_shift (sr dl : Rat) (sel : Seg → Mark) (hsel : ∀ s, sel (shiftWait dl s) = sel s)
+theorem g4_segMarks_shift (sr dl : Rat) (sel : Seg → Mark) (hsel : ∀ s, sel (shiftWait dl s) = sel s)
     (segs : List Seg) (sts : List Nat) :
     segMarks sr sel (segs.map (shiftWait dl)) sts = segMarks sr sel segs sts := by
   induction segs generalizing sts with
@@ -88,13 +88,13 @@ theorem segMarks_shift (sr dl : Rat) (sel : Seg → Mark) (hsel : ∀ s, sel (sh
     | nil => rfl
     | cons st sts => simp only [List.map_cons, segMarks, hsel, ih sts]
 
-theorem shiftWait_m1 (dl : Rat) (s : Seg) : (shiftWait dl s).m1 = s.m1 := by
+theorem g4_shiftWait_m1 (dl : Rat) (s : Seg) : (shiftWait dl s).m1 = s.m1 := by
   unfold shiftWait
   split
   · split <;> rfl
   · rfl
 
-theorem shiftWait_m2 (dl : Rat) (s : Seg) : (shiftWait dl s).m2 = s.m2 := by
+theorem g4_shiftWait_m2 (dl : Rat) (s : Seg) : (shiftWait dl s).m2 = s.m2 := by
   unfold shiftWait
   split
   · split <;> rfl
@@ -104,9 +104,9 @@ theorem assemble_shift_norm (b b' : BP) (sr dl : Rat) (ns : List Nat) (hs : b'.s
     (h1 : b'.marker1 = b.marker1) (h2 : b'.marker2 = b.marker2) :
     (assemble b' sr ns).norm = (assemble b sr ns).norm := by
   simp only [assemble, Forged.norm, hs, h1, h2, mkBlocks_shift_norm,
-    segMarks_shift sr dl (·.m1) (shiftWait_m1 dl), segMarks_shift sr dl (·.m2) (shiftWait_m2 dl)]
+    g4_segMarks_shift sr dl (·.m1) (g4_shiftWait_m1 dl), g4_segMarks_shift sr dl (·.m2) (g4_shiftWait_m2 dl)]
 
-theorem badSpecial_shift (b : BP) (dl : Rat) :
+theorem g4_badSpecial_shift (b : BP) (dl : Rat) :
     badSpecial { b with segs := b.segs.map (shiftWait dl) } = badSpecial b := by
   unfold badSpecial
   simp only [List.any_map]
@@ -128,7 +128,7 @@ theorem forgeBP_zero_delay (b : BP) :
     unfold BP.resolveWaits
     have := resolveGo_shift b.segs 0 0
     simpa using this
-  rw [hr, badSpecial_shift]
+  rw [hr, g4_badSpecial_shift]
   cases b.SR with
   | num sr =>
     simp only
@@ -174,11 +174,11 @@ theorem chanOut_zeroEnt (t : Bool) (ent : ChEntry) :
   | arr a s => rfl
   | broken => rfl
 
-theorem rhe_zero : rhe 0 = 0 := by
+theorem g4_rhe_zero : rhe 0 = 0 := by
   have := rhe_int 0
   simpa using this
 
-theorem padArr_zero (xs : List Rat) : padArr 0 0 xs = xs := by simp [padArr]
+theorem g4_padArr_zero (xs : List Rat) : padArr 0 0 xs = xs := by simp [padArr]
 
 theorem delayChan_zero (sr : Rat) (ent : ChEntry) (h : ent.data ≠ .broken) :
     delayChan sr 0 ent 0 = .ok (zeroEnt ent) := by
@@ -187,7 +187,7 @@ theorem delayChan_zero (sr : Rat) (ent : ChEntry) (h : ent.data ≠ .broken) :
   | bp b =>
     simp only [delayChan, zeroEnt, Res.toExcept, (delayBP_spec b 0 0).1]
   | arr a s =>
-    simp only [delayChan, zeroEnt, zero_mul, sub_self, rhe_zero, Int.toNat_zero, padArr_zero]
+    simp only [delayChan, zeroEnt, zero_mul, sub_self, g4_rhe_zero, Int.toNat_zero, g4_padArr_zero]
     have : List.map (fun (x : String × List Rat) => (x.1, x.2)) a = a := by
       induction a with
       | nil => rfl
@@ -195,7 +195,7 @@ theorem delayChan_zero (sr : Rat) (ent : ChEntry) (h : ent.data ≠ .broken) :
     rw [this]
   | broken => exact absurd rfl h
 
-theorem maxR_all_zero (l : List Rat) (h : ∀ x ∈ l, x = 0) : maxR l = 0 := by
+theorem g4_maxR_all_zero (l : List Rat) (h : ∀ x ∈ l, x = 0) : maxR l = 0 := by
   induction l with
   | nil => rfl
   | cons x xs ih =>
@@ -208,15 +208,15 @@ theorem maxR_all_zero (l : List Rat) (h : ∀ x ∈ l, x = 0) : maxR l = 0 := by
       simp only [ih', hx]
       simp
 
-theorem maxR_zeros {α : Type} (l : List α) : maxR (l.map (fun _ => (0 : Rat))) = 0 :=
-  maxR_all_zero _ (fun x hx => by
+theorem g4_maxR_zeros {α : Type} (l : List α) : maxR (l.map (fun _ => (0 : Rat))) = 0 :=
+  g4_maxR_all_zero _ (fun x hx => by
     simp only [List.mem_map] at hx
     obtain ⟨_, _, rfl⟩ := hx
     rfl)
 
 /-! ### validation gives a numeric sample rate shared by all channels -/
 
-theorem validate_SR (e : Element) (m : Val × Rat) (h : e.validate = .ok m) :
+theorem g4_validate_SR (e : Element) (m : Val × Rat) (h : e.validate = .ok m) :
     (∃ sr, m.1 = .num sr) ∧ ∀ x ∈ e.chans, chanSR x.2 = .ok m.1 := by
   unfold Element.validate at h
   split at h
@@ -291,12 +291,12 @@ theorem validate_SR (e : Element) (m : Val × Rat) (h : e.validate = .ok m) :
                       rw [this, hhead, allSame_getElem srs hall' i 0 (by omega) (by omega)]
 
 /-- a validated element has no broken channel -/
-theorem chanSR_not_broken (ent : ChEntry) (v : Val) (h : chanSR ent = .ok v) : ent.data ≠ .broken := by
+theorem g4_chanSR_not_broken (ent : ChEntry) (v : Val) (h : chanSR ent = .ok v) : ent.data ≠ .broken := by
   obtain ⟨d, fl⟩ := ent
   cases d <;> simp [chanSR] at h ⊢
 
-theorem validate_not_broken (e : Element) (m : Val × Rat) (h : e.validate = .ok m) :
+theorem g4_validate_not_broken (e : Element) (m : Val × Rat) (h : e.validate = .ok m) :
     ∀ x ∈ e.chans, x.2.data ≠ .broken :=
-  fun x hx => chanSR_not_broken x.2 m.1 ((validate_SR e m h).2 x hx)
+  fun x hx => g4_chanSR_not_broken x.2 m.1 ((g4_validate_SR e m h).2 x hx)
 
 end BB
